@@ -64,6 +64,7 @@ def unary_templates(level="std"):
         out.append(("proj -b", lambda cols: "b" in cols, lambda ch, p, cols: ("proj", ch, tuple(sorted(cols - {"b"})))))
         out.append(("proj -c", lambda cols: "c" in cols and len(cols) > 1, lambda ch, p, cols: ("proj", ch, tuple(sorted(cols - {"c"})))))
         out.append(("proj -d", lambda cols: "d" in cols, lambda ch, p, cols: ("proj", ch, tuple(sorted(cols - {"d"})))))
+        out.append(("proj -e", lambda cols: "e" in cols, lambda ch, p, cols: ("proj", ch, tuple(sorted(cols - {"e"})))))
         out.append(("proj -v", lambda cols: "v" in cols, lambda ch, p, cols: ("proj", ch, tuple(sorted(cols - {"v"})))))
         out.append(("proj a", lambda cols: "a" in cols and len(cols) > 1, lambda ch, p, cols: ("proj", ch, ("a",))))
         out.append(("proj all", lambda cols: True, lambda ch, p, cols: ("proj", ch, tuple(sorted(cols)))))
